@@ -73,7 +73,8 @@ T_CancelDone ==
 \* failed dial - happened silently before, its effects may already have been seen by the server)
 T_Ret ==
   /\ IsEvent("ret") /\ Ev.s \in Subs /\ Ev.s \notin rets
-  /\ IF Ev.x = "ok" THEN sub[Ev.s].pc = "ok" ELSE sub[Ev.s].pc = "failed" /\ sub[Ev.s].err = Ev.x
+  \* x = "fail": the data-source wrapper (level "ds") reports a failed call without the error class
+  /\ IF Ev.x = "ok" THEN sub[Ev.s].pc = "ok" ELSE sub[Ev.s].pc = "failed" /\ (Ev.x = "fail" \/ sub[Ev.s].err = Ev.x)
   /\ rets' = rets \cup {Ev.s}
   /\ Same /\ UNCHANGED <<sid, tid>>
 
